@@ -401,6 +401,8 @@ func runC13(e *Engine, r *Report) {
 	ruleVarintLadder(e, r, "raftpb.sovRaft")
 	rulePayloadDecodeTotal(e, r)
 	ruleDecodeOwnsBytes(e, r, 10, c13AliasAccept, "raftpb")
+	ruleFrameHeaderCover(e, r)
+	ruleCodecRawByte(e, r)
 }
 
 // decoders that alias their input on purpose, each confirmed by reading.
